@@ -85,6 +85,7 @@ class Interp:
         self.uid = 0
         self.opaque_calls = []
         self.overlay = {}
+        self.ncopies = 0
         self.depth = 0
 
     # -- entry ------------------------------------------------------------------
@@ -294,6 +295,13 @@ class Interp:
         if isinstance(e, ast.Subscript):
             b = self.ev(e.value, env)
             k = self.ev(e.slice, env)
+            if isinstance(b, dict) and isinstance(k, Obj):
+                for kk, vv in b.items():
+                    if isinstance(kk, Obj) and kk.path == k.path:
+                        return vv
+                if b:
+                    # the lookup is only reached when the membership test was assumed true: the key aliases an entry; take the first one
+                    return list(b.values())[0]
             if isinstance(b, (list, dict, str, tuple)):
                 try:
                     return b[k]
@@ -357,6 +365,17 @@ class Interp:
             res = True
             for op, c in zip(e.ops, e.comparators):
                 r = self.ev(c, env)
+                if isinstance(op, (ast.In, ast.NotIn)) and isinstance(l, Obj) and isinstance(r, (dict, list, set, tuple)) and not l.path.startswith("?"):
+                    # membership of a symbolic value in a concrete container: decided when the container is empty or holds the same symbolic value
+                    # (same access path); otherwise the two symbolic values may alias (normalisation shares members between and-groups) - undecided
+                    same = any(isinstance(x, Obj) and x.path == l.path for x in r)
+                    if not r or same:
+                        ok = bool(same) if isinstance(op, ast.In) else not same
+                        if not ok:
+                            return False
+                        l = r
+                        continue
+                    return UNKNOWN_COND(e)
                 if isinstance(l, (Obj,)) or isinstance(r, (Obj,)) or l is UNKNOWN or r is UNKNOWN:
                     if isinstance(op, (ast.Is, ast.IsNot)) and (r is None or l is None) and not (l is UNKNOWN or r is UNKNOWN):
                         # `x is None` for a symbolic input: unknown
@@ -451,8 +470,18 @@ class Interp:
             if isinstance(b, Obj):
                 if f.attr in ("update", "append", "extend", "clear"):
                     return None  # mutation of an input object: irrelevant for the emitted control structure
-                if b.path in ("copy",) and f.attr == "deepcopy":
-                    return args[0]
+                if b.path in ("copy",) and f.attr in ("deepcopy", "copy"):
+                    a0 = args[0]
+                    if isinstance(a0, Obj):
+                        # a copy is a new object: attribute stores on it must not show through on the original (or on other copies)
+                        self.ncopies += 1
+                        c = Obj("copy#%d(%s)" % (self.ncopies, a0.path), a0.kind)
+                        c.origin = getattr(a0, "origin", a0.path)
+                        for (pth, attr), v in list(self.overlay.items()):
+                            if pth == a0.path:
+                                self.overlay[(c.path, attr)] = v
+                        return c
+                    return a0
                 if b.path == "re":
                     return Obj("re.%s(...)" % f.attr)
                 return Obj("%s.%s(...)" % (b.path, f.attr))
@@ -504,6 +533,8 @@ class Interp:
             return self.call_function(fname, args)
         if fname in ("_create_ref_ast_dict_helper", "_create_member_ast_dict_helper", "escape_special_string_characters", "cast"):
             return Obj("%s(%s)" % (fname, ",".join(fmt(a) for a in args)))
+        if fname in ("id", "hash", "repr", "type") and len(args) == 1:
+            return Obj("%s(%s)" % (fname, fmt(args[0])))
         if fname in ("ColangSyntaxError", "NotImplementedError", "ColangRuntimeError", "Exception"):
             return Obj("exc")
         if fname in self.funcs and all(a is None or isinstance(a, (Obj, Sym, str, int, bool)) for a in list(args) + list(kw.values())):
@@ -547,6 +578,27 @@ def cond_key(e):
     return src(e)
 
 
+def _annotate(v, overlay, seen=None):
+    """attach to every symbolic object of the emitted list the attributes the expander stored on it (`obj.attrs`)"""
+    seen = seen if seen is not None else set()
+    if id(v) in seen:
+        return
+    seen.add(id(v))
+    if isinstance(v, Obj):
+        v.attrs = {attr: val for (pth, attr), val in overlay.items() if pth == v.path}
+        for val in v.attrs.values():
+            _annotate(val, overlay, seen)
+    elif isinstance(v, Rec):
+        for val in v.fields.values():
+            _annotate(val, overlay, seen)
+    elif isinstance(v, dict):
+        for val in v.values():
+            _annotate(val, overlay, seen)
+    elif isinstance(v, (list, tuple)):
+        for val in v:
+            _annotate(val, overlay, seen)
+
+
 def run_expander(module_ast, fname, sizes, max_paths=256):
     """All paths (oracle choices) of one expander under a size assignment.
     -> [(oracle dict, emitted list or None when the path raises)]"""
@@ -567,6 +619,7 @@ def run_expander(module_ast, fname, sizes, max_paths=256):
             out = it.call_function(fname, args)
         except _Raise:
             out = None
+        _annotate(out, it.overlay)
         # every condition asked for the first time defaulted to True: also explore False
         for k in it.asked:
             alt = dict(it.oracle)
